@@ -135,6 +135,9 @@ func verifDraws() uint64 { return verifRand.n }
     # would depend on how long the host kernel took
     s = patch(s, "func retake(now int64) uint32 {\n\tn := 0\n",
         "func retake(now int64) uint32 {\n\tif verifRand.on {\n\t\treturn 0\n\t}\n\tn := 0\n", "proc.go/retake-syscall")
+    # the race-detector build randomises run-queue insertion from the per-M
+    # generator; the simulator decides interleavings itself
+    s = patch(s, "const randomizeScheduler = raceenabled\n", "const randomizeScheduler = false // VERIF overlay\n", "proc.go/randomizeScheduler")
     files["proc.go"] = s
 
     # ---- alg.go -------------------------------------------------------
